@@ -2,7 +2,7 @@
 import itertools
 import numpy as np
 from fractions import Fraction
-import common, algrun, scenarios
+import common, algrun, scenarios, gen
 from algrun import F
 from props import algcommon
 
@@ -182,10 +182,58 @@ def step_checks(ctx):
     return viol, st, recs
 
 
+def paveba_pairing(ctx):
+    """PaVeBa with its real empirical model on 24-design datasets in which a handful of high-index designs stay
+    active for many rounds (Python set iteration of such sets is not index order): every design in S ∪ U is queried
+    exactly once per round, and each returned observation is stored under the design it was returned for"""
+    import random
+    viol = []
+    st = {"paveba_pairing_rounds": 0, "paveba_pairing_rounds_with_unsorted_active_set": 0}
+    W = gen.CONES_2D["orthant2"][0]
+    for run_i in range(2 if ctx.quick else 10):
+        rng = random.Random(1000 + run_i + 17 * ctx.seed)
+        K = 24
+        front = sorted(rng.sample(range(4, K), 8))
+        Y = [[-6.0 - 0.125 * k, -6.0 + 0.0625 * k] for k in range(K)]
+        for j, k in enumerate(front):
+            # four pairs on an anti-diagonal; within a pair the second design is below the first by less than eps, so it
+            # stays undecided (and its partner useful) until the regions have shrunk a lot
+            base = [0.5 * (j // 2), -0.5 * (j // 2)]
+            Y[k] = base if j % 2 == 0 else [base[0] - 0.015625, base[1] - 0.015625]
+        X = [[(k % 6) / 8.0, (k // 6) / 8.0] for k in range(K)]
+        noise = lambda r, i: [((r * 7 + i * 3) % 11 - 5) / 256.0, ((r * 5 + i * 11) % 13 - 6) / 256.0]
+        a, _ = algrun.build("PaVeBa-real", X, Y, W, 0.03125, (lambda r, Y=Y: (Y, [[1.0] * 2 for _ in Y])), delta=0.1, noise_var=0.01,
+                            contraction=16.0, obs_noise=noise)
+        Xa = np.array(X)
+        for t in range(12 if ctx.quick else 30):
+            A = sorted(int(x) for x in set(a.S) | set(a.U))
+            unsorted = list(set(a.S) | set(a.U)) != A
+            counts = [len(s) for s in a.model.design_samples]
+            nc = len(a.problem.calls)
+            if a.run_one_step():
+                break
+            st["paveba_pairing_rounds"] += 1
+            st["paveba_pairing_rounds_with_unsorted_active_set"] += 1 if unsorted else 0
+            queried = []
+            for c in a.problem.calls[nc:]:
+                for xr, yr in zip(np.atleast_2d(c["x"]), np.atleast_2d(c["y"])):
+                    queried.append((int(np.argmin(((Xa - xr[:2]) ** 2).sum(1))), yr))
+            rep = {"kind": "paveba-pairing", "run": run_i, "round": int(a.round)}
+            if sorted(q[0] for q in queried) != A:
+                viol.append({"signature": "paveba-active-designs-not-sampled-once", "message": f"PaVeBa round {a.round}: queried designs {sorted(q[0] for q in queried)}, active designs {A}", "replay": rep}); break
+            bad = [(i, y.tolist(), a.model.design_samples[i][-1].tolist()) for i, y in queried
+                   if len(a.model.design_samples[i]) != counts[i] + 1 or not np.array_equal(a.model.design_samples[i][-1], y)]
+            if bad:
+                viol.append({"signature": "paveba-observation-stored-under-wrong-design", "message": f"PaVeBa round {a.round} (active set iterates as {list(set(A))}): observation returned for design {bad[0][0]} is {bad[0][1]} but the model stored {bad[0][2]} for it ({len(bad)} designs affected)", "replay": rep}); break
+    return viol, st
+
+
 def run(ctx):
     v1, s1 = optimiser_cases(ctx)
     v2, s2, recs = step_checks(ctx)
-    stats = {**s1, **s2}
+    v3, s3 = paveba_pairing(ctx)
+    v2 = v2 + v3
+    stats = {**s1, **s2, **s3}
     return {"evaluations": s1["single_tables"] + s1["decoupled_tables"] + s2["steps_with_samples"], "distinct_nontrivial": s1["with_ties"] + s2["steps_with_samples"],
             "traces": len(recs),
             "rule": "value tables (exhaustive over {0,1,2}^n for n<=4 quick / n<=6 thorough, plus random tables with ties) x batch sizes incl. larger than the table, through optimize_acqf_discrete (exact picks vs the model) and optimize_decoupled_acqf_discrete (contract: q best (design, objective) pairs, non-increasing); whole steps of 7 stub-driven algorithms with recording proxies: every evaluation for an active design, maximal recomputed acquisition value, distinct, non-increasing, batch size, add_sample receives exactly (queried designs, returned observations, objective indices); non-trivial = tables with ties + sampling steps",
